@@ -25,6 +25,8 @@ OpSEND == 26          OpRECV == 27         OpSPLICE == 30       OpSHUTDOWN == 34
 OpRENAMEAT == 35      OpUNLINKAT == 36     OpMKDIRAT == 37      OpSOCKET == 45
 OpURING_CMD == 46     OpSEND_ZC == 47      OpWAITID == 50       OpFTRUNCATE == 55
 OpBIND == 56          OpLISTEN == 57
+OpFILES_UPDATE == 20  OpREAD_MULTISHOT == 49  OpFIXED_FD_INSTALL == 54  OpPIPE == 62
+RecvMultishot == 2            \* IORING_RECV_MULTISHOT (ioprio)
 
 FsyncDatasync == 1            \* IORING_FSYNC_DATASYNC
 AcceptMultishot == 1          \* IORING_ACCEPT_MULTISHOT (ioprio)
@@ -54,6 +56,7 @@ Blank == [opcode |-> 0,
           ioprio |-> 0,
           idx |-> "NUM", idxv |-> 0,          \* file_index / splice_fd_in / addr_len / optlen word: NUM, ALLOC, TARGET+1, ADDRLEN, OPTLEN, FDIN
           addr3 |-> "ZERO",
+          select |-> FALSE,                   \* IOSQE_BUFFER_SELECT, with the pool's group in buf_group
           fixed |-> FALSE]                    \* IOSQE_FIXED_FILE
 
 OnFd(kind, e) == [e EXCEPT !.fd = "TARGET", !.fixed = (kind = "direct")]
@@ -221,10 +224,33 @@ WaitidCases == { Case("waitid", "file", A(Zero64, idt, id, opt, 0),
                                     !.idx = "NUM", !.idxv = opt, !.off = "SIGINFO"])
                  : idt \in {0, 1, 2}, id \in {1, 4242}, opt \in {4, 4 + 8, 4 + 16777216} }   \* P_ALL/P_PID/P_PGID; WEXITED [| WCONTINUED | WNOWAIT]
 
+\* read / recv into a buffer the kernel selects from a ReadBufPool: no address, no length,
+\* IOSQE_BUFFER_SELECT and the pool's group id; the multishot forms: IORING_OP_READ_MULTISHOT, and
+\* IORING_OP_RECV with IORING_RECV_MULTISHOT in ioprio.
+PoolCases == { Case("read_pool", k, A(o, 0, 0, 0, 0),
+                    OnFd(k, [Blank EXCEPT !.opcode = OpREAD, !.off = Off(o).t, !.offv = Off(o).v, !.select = TRUE]))
+               : k \in Kinds, o \in {<<0, -1>>, <<0, 7>>, <<1, 5>>} }
+             \cup { Case("recv_pool", k, A(Zero64, 0, fl, 0, 0), OnFd(k, [Blank EXCEPT !.opcode = OpRECV, !.opf = fl, !.select = TRUE]))
+                    : k \in Kinds, fl \in {0, 2, 256} }
+             \cup { Case("read_multishot", k, NoArgs, OnFd(k, [Blank EXCEPT !.opcode = OpREAD_MULTISHOT, !.off = "ANY", !.select = TRUE]))   \* only non-seekable files: the offset is not used
+                    : k \in Kinds }
+             \cup { Case("recv_multishot", k, A(Zero64, 0, fl, 0, 0),
+                         OnFd(k, [Blank EXCEPT !.opcode = OpRECV, !.opf = fl, !.ioprio = RecvMultishot, !.select = TRUE]))
+                    : k \in Kinds, fl \in {0, 2} }
+\* pipe2(fds, O_CLOEXEC): addr = the two descriptors to fill in; fd is unused (0).
+PipeCases == { Case("pipe", k, NoArgs,
+                    Creates(k, [Blank EXCEPT !.opcode = OpPIPE, !.fd = "NUM", !.fdv = 0, !.addr = "FDS", !.opf = IF k = "file" THEN OCloexec ELSE 0]))
+               : k \in Kinds }
+\* Registering a regular descriptor in a free slot (IORING_OP_FILES_UPDATE with offset
+\* IORING_FILE_INDEX_ALLOC) and installing a direct descriptor as a regular one.
+ConvertCases == { Case("to_direct", "file", NoArgs, [Blank EXCEPT !.opcode = OpFILES_UPDATE, !.fd = "NONE", !.off = "ALLOC", !.addr = "FDPTR", !.len = 1]),
+                  Case("to_file", "direct", NoArgs, OnFd("direct", [Blank EXCEPT !.opcode = OpFIXED_FD_INSTALL])) }
+
 AllCases == ReadCases \cup WriteCases \cup ReadvCases \cup WritevCases \cup FsyncCases \cup StatxCases \cup FadviseCases
             \cup FallocateCases \cup FtruncateCases \cup CloseCases \cup OpenCases \cup TmpfileCases \cup PathCases
             \cup SocketCases \cup ConnectCases \cup ListenCases \cup AcceptCases \cup SendCases \cup SendToCases \cup RecvCases
             \cup MsgCases \cup ShutdownCases \cup SockoptCases \cup SpliceCases \cup MadviseCases \cup WaitidCases
+            \cup PoolCases \cup PipeCases \cup ConvertCases
 
 VARIABLES case
 Init == case \in AllCases
@@ -237,6 +263,7 @@ Spec == Init /\ [][Next]_case
 WellFormed ==
     /\ case.e.opcode > 0
     /\ (case.e.fixed => case.kind = "direct")
-    /\ (case.e.idx = "ALLOC" => case.op \in {"open", "open_tmpfile", "socket", "accept"})
+    /\ (case.e.idx = "ALLOC" => case.op \in {"open", "open_tmpfile", "socket", "accept", "pipe"})
+    /\ (case.e.select => case.e.addr = "ZERO" /\ case.e.len = 0)
     /\ (case.e.off = "CUR" => case.e.offv = Zero64)
 =============================================================================
